@@ -138,7 +138,11 @@ func (g *c02Gen) pickName(env *c02Env, avoidLocal bool) string {
 		var n string
 		switch {
 		case g.r.Chance(55):
+			// the renamer's own output alphabet in its frequency order: original names collide with generated ones
 			n = g.r.Pick(c02Short)
+			if g.r.Bool() {
+				n = c02Short[g.r.Intn(8)]
+			}
 		case g.r.Chance(60):
 			n = g.r.Pick(c02Long)
 		default:
@@ -493,18 +497,10 @@ func (g *c02Gen) stmt(env *c02Env, depth int, fnTop bool) string {
 		return "{" + g.stmts(inner, depth-1, 1+g.r.Intn(4), false) + g.use(inner) + "}"
 	case k < 58: // if / else
 		g.feat["if"]++
-		if g.fdepth > 0 && fnTop && g.r.Chance(30) {
-			// consequent ends in return, the else block declares lexically (else-flattening, fixed K-C02-1)
-			g.feat["ifFlowLex"]++
-			inner := newC02Env(env, false)
-			n := g.freshName(inner)
-			init := g.excluding([]string{n}, func() string { return g.initExpr(inner) })
-			g.declare(inner, n, "num", false)
-			body := fmt.Sprintf("let %s=%s;%s%s", n, init, g.use(inner), g.use(inner))
-			if g.r.Bool() {
-				return fmt.Sprintf("if(R(%d,0)){%sreturn %d}else{%s}", g.nextSite(), g.use(env), g.nextVal(), body)
-			}
-			return fmt.Sprintf("if(!R(%d,1)){%s}else{%sreturn %d}", g.nextSite(), body, g.use(env), g.nextVal())
+		if g.fdepth > 0 && g.r.Chance(30) {
+			// consequent ends in return, the else block declares lexically: in function bodies, blocks, try/catch/finally
+			// and switch clauses alike (every scope whose statement list is optimised before it is renamed)
+			return g.flowElse(env, fmt.Sprintf("return %d", g.nextVal()))
 		}
 		a := "{" + g.use(newC02Env(env, false)) + g.nestedBlockOrUse(env, depth-1) + "}"
 		b := "{" + g.use(newC02Env(env, false)) + g.nestedBlockOrUse(env, depth-1) + "}"
@@ -520,11 +516,20 @@ func (g *c02Gen) stmt(env *c02Env, depth int, fnTop bool) string {
 			v = g.freshName(inner)
 		}
 		g.feat["for"]++
-		switch g.r.Intn(3) {
+		switch g.r.Intn(4) {
+		case 3: // while (turned into for(;;) by the parser option WhileToFor)
+			blk := newC02Env(env, false)
+			k := g.freshName(blk)
+			g.declare(blk, k, "num", false)
+			inner = newC02Env(blk, false)
+			inner.mention(k) // the body must not redeclare the counter
+			body := g.stmts(inner, depth-1, 1+g.r.Intn(2), false) + g.loopFlow(inner)
+			g.feat["while"]++
+			return fmt.Sprintf("{let %s=0;while(%s<2){%s++;%s}}", k, k, k, body)
 		case 0:
 			g.declare(inner, v, "num", false)
 			if top && !g.opt.topDecls {
-				body := g.stmts(inner, depth-1, 1+g.r.Intn(3), false)
+				body := g.stmts(inner, depth-1, 1+g.r.Intn(3), false) + g.loopFlow(inner)
 				return fmt.Sprintf("for(let %s=0;%s<2;%s++){%s}", v, v, v, body)
 			}
 			g.declare(env, arr, "obj", true) // before the body: the body must not mention the array by a global's name
@@ -533,11 +538,11 @@ func (g *c02Gen) stmt(env *c02Env, depth int, fnTop bool) string {
 			return fmt.Sprintf("const %s=[];for(let %s=0;%s<2;%s++){%s%s.push(()=>R(%d,%s))}%s.forEach(%s=>%s());", arr, v, v, v, body, arr, g.nextSite(), v, arr, v, v)
 		case 1:
 			g.declare(inner, v, "num", true)
-			body := g.stmts(inner, depth-1, 1+g.r.Intn(3), false)
+			body := g.stmts(inner, depth-1, 1+g.r.Intn(3), false) + g.loopFlow(inner)
 			return fmt.Sprintf("for(const %s of [%d,%d]){%s}", v, g.nextVal(), g.nextVal(), body)
 		default:
 			g.declare(inner, v, "str", true)
-			body := g.stmts(inner, depth-1, 1+g.r.Intn(2), false)
+			body := g.stmts(inner, depth-1, 1+g.r.Intn(2), false) + g.loopFlow(inner)
 			p, q := g.pickName(env, false), g.pickName(env, false)
 			return fmt.Sprintf("for(const %s in {%s:1,%s_:2}){R(%d,%s);%s}", v, p, q, g.nextSite(), v, body)
 		}
@@ -637,6 +642,38 @@ func (g *c02Gen) stmt(env *c02Env, depth int, fnTop bool) string {
 		}
 		return s
 	}
+}
+
+// flowElse: `if(c){…;continue|break|return}else{let N=…;…}` — the else block is merged into the surrounding statement
+// list by optimizeStmtList and its lexical bindings move into the surrounding scope (Scope.Unscope), which must happen
+// before that scope is renamed; N is drawn from the generated names so that a binding left un-renamed captures.
+func (g *c02Gen) flowElse(env *c02Env, flow string) string {
+	g.feat["flowElse:"+strings.Fields(flow)[0]]++
+	inner := newC02Env(env, false)
+	kw := "let"
+	if g.r.Chance(30) {
+		kw = "const"
+	}
+	n := g.freshName(inner)
+	init := g.excluding([]string{n}, func() string { return g.initExpr(inner) })
+	g.declare(inner, n, "num", kw == "const")
+	body := fmt.Sprintf("%s %s=%s;%s%s", kw, n, init, g.use(inner), g.use(inner))
+	if g.r.Chance(25) { // a second binding and a closure over the first
+		m := g.freshName(inner)
+		g.declare(inner, m, "num", false)
+		body += fmt.Sprintf("let %s=(()=>%s)();%s", m, n, g.use(inner))
+	}
+	if g.r.Chance(70) {
+		return fmt.Sprintf("if(R(%d,0)){%s%s}else{%s}%s", g.nextSite(), g.use(env), flow, body, g.use(env))
+	}
+	return fmt.Sprintf("if(!R(%d,1)){%s}else{%s%s}%s", g.nextSite(), body, g.use(env), flow, g.use(env))
+}
+
+func (g *c02Gen) loopFlow(env *c02Env) string {
+	if g.r.Chance(55) {
+		return g.flowElse(env, g.r.Pick([]string{"continue", "continue", "break"}))
+	}
+	return ""
 }
 
 func (g *c02Gen) nestedBlockOrUse(env *c02Env, depth int) string {
